@@ -24,6 +24,17 @@ package helpers
 //@   pure
 //@   ensures result != nil && exit_code(result) == exitCode
 
+// C01: the summary line `Matched: M / R (Ignored: I)` prints the extractor's own counters, each
+// in its place: M = matched, R = read, I = ignored (what the humanizer is handed is the counter)
+//@ func FWriteMatchSummary
+//@   requires w != nil
+//@   assert at "color.BrightGreen, humanize.Hui(" : $arg0 == matched
+//@   assert at "color.BrightWhite, humanize.Hui(" : $arg0 == total
+//@ func FWriteExtractorSummary
+//@   requires extractor != nil
+//@   assert at "FWriteMatchSummary(&w," : $arg1 == extractor.matchedLines && $arg2 == extractor.readLines
+//@   assert at "(Ignored: %s)", color.Wrapi(color.Red, humanize.Hui(" : $arg0 == extractor.ignoredLines
+
 // C06: exit status precedence. Read errors => 2; else parse errors (when an aggregator exists) => 2;
 // else nothing matched => 1; else success (nil).
 //@ func DetermineErrorState
